@@ -4,7 +4,12 @@ SPEC = {
     "theorems": ["C07_builtin_table", "C07_consts", "C07_builtin_wf", "C07_roundtrip", "C07_builtin_roundtrip", "C07_roundtrip_vec",
                  "C07_spec", "C07_len", "C07_decoder_total", "C07_ref_compress", "C07_builtin_tree", "C07_ref_decompress",
                  "C07_builtin_is_built",
-                 "C07_from_frequencies_total_refuted", "C07_nonvacuous"],
+                 "C07_from_frequencies_total_refuted", "C07_nonvacuous",
+                 "C07_from_frequencies_wf", "C07_from_frequencies_tree", "C07_from_frequencies_outcome",
+                 "C07_from_frequencies_fails_only_by_stack", "C07_from_frequencies_never_errs", "C07_from_frequencies_roundtrip",
+                 "C07_from_frequencies_spec", "C07_from_frequencies_ref_compress", "C07_from_frequencies_ref_decompress",
+                 "C07build_nonvacuous"],
+    "props_files": ["C07", "C07build"],
     "allowed_axioms": [],
     "extract": {
         "LibTw2.Model.Huffman": ["of_list", "compress", "compress_into_vec", "compressed_len", "compressed_len_bug",
@@ -29,8 +34,9 @@ SPEC = {
     "assumptions": [
         "input bytes are u8 (bytes_ok)",
         "the table satisfies the decidable check wf_table: proved for the built-in table (C07_builtin_wf, vm_compute); "
-        "for tables from Huffman::from_frequencies it is evaluated by the extracted checker on every table the "
-        "harness builds (certified checking), not proved for all frequency vectors",
+        "for EVERY table Huffman::from_frequencies returns (C07_from_frequencies_wf, Props/C07build.v: loop invariant of the "
+        "combining loop + induction over the tree for the explicit-stack walk; the only failure is the 24-entry stack, K07); "
+        "the extracted checker still runs on every table the harness builds",
         "usize arithmetic of compressed_bit_len does not wrap (inputs below 2^64 / 24 bytes)",
         "C07_ref_compress: the C++ side holds the same (bits, num_bits) per symbol as the table and its buffer has "
         "at least one byte; the frequency sum stays below 2^31 (the reference keeps frequencies in a C int)",
